@@ -203,6 +203,25 @@ def run(chk, replay=None):
             chk.violation({"class": "jet-not-callable", "what": "%s: %s" % (name, x[:200])},
                           {"cmd": "front", "line": "(compile %s)" % quote(p), "program": p, "implementation": x,
                            "broken": "the documented one-call program for this jet is rejected / does not compile"})
+    # ... and every parameter takes a run-time value of exactly its documented type: witness values (and template arguments) built
+    # through the value API at the documented types are accepted by satisfy / instantiate (the jet itself may fail on them)
+    wl = []
+    for idx, name, ps, ret in rows:
+        if name in ("verify", "check_sig_verify") or not ps:
+            continue
+        vals = boundary_args(rng, ps)
+        p_w = [pp for (i2, n2, pp) in progs if i2 == idx][0]
+        wl.append((name, "witness", "(run %s () %s 0)" % (quote(p_w), corelib.bindings_sx([("A%d" % i, a) for i, a in enumerate(vals)]))))
+        p_p = p_w.replace("witness::", "param::")
+        wl.append((name, "param", "(run %s %s () 0)" % (quote(p_p), corelib.bindings_sx([("A%d" % i, a) for i, a in enumerate(vals)]))))
+    for (name, chan, ln), x in zip(wl, impl("core", [w[2] for w in wl])):
+        ci = corelib.classify_impl(x)
+        chk.case(ln)
+        chk.count("runtime-typed.%s.%s" % (chan, ci if ci in ("ok", "failed", "sat-error", "panic") else "other"))
+        if ci not in ("ok", "failed"):
+            chk.violation({"class": "jet-not-callable", "what": "%s with %s values of the documented types: %s" % (name, chan, x[:160])},
+                          {"cmd": "core", "line": ln, "implementation": x[:600], "jet": name,
+                           "broken": "a jet parameter does not take a run-time value (%s) of its documented type" % chan})
     # wrong arity / swapped heterogeneous arguments must be rejected
     neg = []
     for idx, name, ps, ret in rows:
@@ -246,19 +265,33 @@ def run(chk, replay=None):
         call = "jet::%s(%s)" % (name, ", ".join(gen.val_src(a) for a in args))
         body = ["let r: %s = %s;" % (gen.ty_src(ret), call)] + assert_eq("r", ret, v, fresh)
         runs.append((name, args, "fn main() { %s }" % " ".join(body), "ok"))
+        if ps and (len(runs) % 3 == 0 or any(t == ("U", 7) for t in ps)):
+            # the same call with the arguments supplied at run time: one witness / one template parameter per documented parameter,
+            # holding a value of exactly the documented type
+            for chan, kw in (("witness", "wit"), ("param", "args")):
+                fresh = Fresh()
+                lets = ["let a%d: %s = %s::A%d;" % (i, gen.ty_src(t), chan, i) for i, t in enumerate(ps)]
+                body = lets + ["let r: %s = jet::%s(%s);" % (gen.ty_src(ret), name, ", ".join("a%d" % i for i in range(len(ps))))] + assert_eq("r", ret, v, fresh)
+                runs.append((name, args, "fn main() { %s }" % " ".join(body), "ok", {kw: corelib.bindings_sx([("A%d" % i, a) for i, a in enumerate(args)])}))
         pv = perturb(rng, ret, v)
         if pv is not None:
             fresh = Fresh()
             body = ["let r: %s = %s;" % (gen.ty_src(ret), call)] + assert_eq("r", ret, pv, fresh)
             runs.append((name, args, "fn main() { %s }" % " ".join(body), "failed"))
-    res = impl("core", ["(run %s () () 0)" % quote(p) for (_, _, p, _) in runs])
-    for (name, args, p, want), x in zip(runs, res):
+    def run_line(r):
+        ch = r[4] if len(r) > 4 else {}
+        return "(run %s %s %s 0)" % (quote(r[2]), ch.get("args", "()"), ch.get("wit", "()"))
+    res = impl("core", [run_line(r) for r in runs])
+    for r, x in zip(runs, res):
+        name, args, p, want = r[:4]
         ci = corelib.classify_impl(x)
+        if len(r) > 4:
+            chk.count("value.runtime-arguments.%s" % ci)
         chk.case(p, sample={"jet": name, "program": p[:240], "expected": want, "implementation": ci})
         chk.count("value.%s.%s" % (want, ci))
         if ci != want:
             chk.violation({"class": "jet-value", "what": "%s(%s): expected %s got %s" % (name, ", ".join(gen.val_src(a) for a in args)[:80], want, ci)},
-                          {"cmd": "core", "line": "(run %s () () 0)" % quote(p), "program": p, "implementation": x, "expected": want,
+                          {"cmd": "core", "line": run_line(r), "program": p, "implementation": x, "expected": want,
                            "broken": "the value computed through Simfony differs from the jet's closed-form meaning (Jets/JetSem.v) — or the argument order/grouping changed"})
     chk.exhaustive = True
     chk.extra["rule"] = ("all %d jets of Elements::ALL: documented one-call program must compile (reserved: must be rejected), wrong arity / swapped heterogeneous arguments must be rejected; "
